@@ -249,6 +249,44 @@ static void case_neighbors(H3Index o, vf_rng *r) {
         vf_add("pred.far_pairs", 1);
         if (e || out != 0) vf_violation("predicate", "areNeighborCells", key ^ vf_mix(far) ^ 3, "", "far pair (%016" PRIx64 ", %016" PRIx64 ") rc=%u out=%d", o, far, e, out);
     }
+    /* far cells that look alike digit-wise: the same digits on another base cell; the same tail under different leading digits;
+     * the same digits with only the last one changed on another base cell (a "sibling" by its low bits).  A predicate that
+     * compares truncated or masked indexes takes these for siblings. */
+    {
+        H3Index cand[8];
+        int nc = 0;
+        int bc = (int)((o >> 45) & 127);
+        for (int t = 0; t < 3; t++) {
+            int bc2 = (bc + 1 + (int)vf_below(r, 121)) % 122;
+            if (t == 1) bc2 = (bc + 32) % 122; /* differs in one high bit of the base-cell field */
+            if (t == 2) bc2 = (bc + 4 * (1 + (int)vf_below(r, 20))) % 122;
+            H3Index c = (o & ~((uint64_t)127 << 45)) | ((uint64_t)bc2 << 45);
+            cand[nc++] = c;
+            if (res > 0) cand[nc++] = vf_set_digit(c, res, (int)vf_below(r, 7));
+        }
+        if (res >= 3) {
+            H3Index c = o;
+            int keep = 1 + (int)vf_below(r, (uint64_t)(res - 1)); /* keep the last `keep` digits */
+            for (int q = 1; q <= res - keep; q++) c = vf_set_digit(c, q, (int)vf_below(r, 7));
+            cand[nc++] = c;
+            cand[nc++] = vf_set_digit(c, res, (int)vf_below(r, 7));
+        }
+        LatLng go;
+        vf_cell OC;
+        if (!cellToLatLng(o, &go) && !vf_cell_load(o, &OC))
+            for (int t = 0; t < nc; t++) {
+                LatLng gc;
+                if (!ref_is_valid_cell(cand[t]) || cand[t] == o || vf_map_get(&dist, cand[t]) || cellToLatLng(cand[t], &gc)) continue;
+                if (v3_angle(v3_from_ll(go), v3_from_ll(gc)) < 4 * OC.width) continue; /* only clearly distant cells are judged here */
+                for (int dir = 0; dir < 2; dir++) {
+                    int out = -1;
+                    e = dir ? areNeighborCells(cand[t], o, &out) : areNeighborCells(o, cand[t], &out);
+                    vf_add("pred.structured_far_pairs", 1);
+                    if (e || out != 0)
+                        vf_violation("predicate", "areNeighborCells", key ^ vf_mix(cand[t]) ^ 4, "", "areNeighborCells(%016" PRIx64 ", %016" PRIx64 ") rc=%u out=%d for cells whose centres are more than 4 cell widths apart", dir ? cand[t] : o, dir ? o : cand[t], e, out);
+                }
+            }
+    }
     VF_UNGUARD();
     vf_add("nbr.cases", 1);
     vf_distinct(key);
